@@ -57,17 +57,19 @@ func VerifC06SingleUse() {
 		}
 		return creds
 	}
-	fetch := func(creds *types.NodeCredentials) bool {
+	fetch := func(creds *types.NodeCredentials, extra ...nodeenrollment.Option) bool {
 		req, err := creds.CreateFetchNodeCredentialsRequest(ctx, nodeenrollment.WithActivationToken(token))
 		if err != nil {
 			panic(err)
 		}
-		resp, err := FetchNodeCredentials(ctx, st, req, fopts...)
+		resp, err := FetchNodeCredentials(ctx, st, req, append(append([]nodeenrollment.Option{}, fopts...), extra...)...)
 		return vfIssued(resp, err)
 	}
 	nodeA := newNode()
 	tFirst := vf.Now()
-	first := fetch(nodeA)
+	// the first use may be a fetch that was told not to persist the node record: it still uses the token up
+	skip := vf.Bool("first-use-with-skip-storage")
+	first := fetch(nodeA, nodeenrollment.WithSkipStorage(skip))
 	recordsAfterFirst := st.Count(vfs.KindNode)
 	second := false
 	if vf.Bool("second-use-by-the-same-node") {
@@ -79,7 +81,7 @@ func VerifC06SingleUse() {
 	if first {
 		vf.Reach("first-use-enrolled")
 		vf.Assert("enrolled-only-while-unexpired", vf.TimeLE(tFirst, created.Add(maxLife)))
-		vf.Assert("exactly-one-record", recordsAfterFirst == 1)
+		vf.Assert("exactly-one-record", recordsAfterFirst == 1 || (skip && recordsAfterFirst == 0))
 	} else {
 		vf.Reach("first-use-refused")
 		vf.Assert("refused-use-creates-no-record", recordsAfterFirst == 0)
